@@ -14,6 +14,7 @@ class P(vlib.Prop):
     instance_obligations = ["t1_bytesToItemIndex_matches_go", "t1_method_sets_match_go", "t1_storage_optypes_match_go"]
     harness_module = "C01.Harness"
     case_type = "vcase"
+    check_fn = "check_both"     # = check_case && prop_ok: one vm_compute pass for the model comparison and the clause checker
     shard = 40
     def translate(self, ctx):
         # T1: re-read the current Go source on every run (coq/Generated/C01*.v); C01/Translated.v proves that the
@@ -68,13 +69,18 @@ class P(vlib.Prop):
                9: "observed-store-bytes-do-not-decode"}
 
     def extra_checks(self, ctx):
-        idx = [i for i, c in enumerate(ctx.cases) if c["term"].startswith("CHist")]
-        if not idx:
+        # the standard pass evaluated check_both = check_case && prop_ok on every case; attribute its (first 50) failures
+        nh = sum(1 for c in ctx.cases if c["term"].startswith("CHist"))
+        if not ctx.mismatches:
+            ctx.extra_coverage["observed_clause_checker"] = {"histories_checked": nh, "violations": 0}
+            self.translated_divergence(ctx)
             return
-        terms = [ctx.cases[i]["term"] for i in idx]
+        cand = ctx.mismatches
+        terms = [m["term"] for m in cand]
         failed = vlib.coq_eval_cases(ctx, self.harness_module, "prop_ok", self.case_type, terms, shard=self.shard)
-        ctx.extra_coverage["observed_clause_checker"] = {"histories_checked": len(terms), "violations": len(failed)}
-        mism = {m["term"] for m in ctx.mismatches}
+        disagree = set(vlib.coq_eval_cases(ctx, self.harness_module, "check_case", self.case_type, terms, shard=self.shard))
+        ctx.mismatches = [m for k, m in enumerate(cand) if k in disagree]
+        ctx.extra_coverage["observed_clause_checker"] = {"histories_checked": nh, "violations_among_first_50_failures": len(failed)}
         for k in failed[:20]:
             t = terms[k]
             v = vlib.coq_eval_term(ctx, self.harness_module, "prop_verdict (%s)" % t) if len(t) < 60000 else "?"
@@ -83,9 +89,9 @@ class P(vlib.Prop):
                 if ("= %d" % n) in v:
                     code = n
             kind = self.CLAUSES.get(code, "observed-history-violates-a-clause")
-            ctx.oracle.append({"kind": kind, "term": t, "harness": ctx.cases[idx[k]]["harness"],
+            ctx.oracle.append({"kind": kind, "term": t, "harness": cand[k]["harness"],
                                "detail": "clause checker on the observed history: verdict %s%s" % (
-                                   v[:80], " (model and implementation also disagree on this history)" if t in mism else "")})
+                                   v[:80], " (model and implementation also disagree on this history)" if k in disagree else "")})
         self.translated_divergence(ctx)
 
     def translated_divergence(self, ctx):
